@@ -117,9 +117,12 @@ class FakePort:
     def flushInput(self):  # noqa: N802  (pyserial 2 name used by ebb_serial.testPort)
         self.rx.clear()
 
-    # attributes some code paths may touch
+    # attributes some code paths may touch (pyserial's Serial exposes the device name as .port / .name / .portstr)
     timeout = 1.0
     is_open = True
+    port = "/dev/ttyACM0"
+    name = "/dev/ttyACM0"
+    portstr = "/dev/ttyACM0"
 
 
 class SerialFactory:
